@@ -46,6 +46,10 @@ namespace vpsc {
 static const double ZERO_UPPERBOUND=-1e-10;
 static const double LAGRANGIAN_TOLERANCE=-1e-4;
 
+#ifdef ADAPTAGRAMS_VERIF
+VerifCounters verifCounters = {0, 0, 0, 0, 0};
+#endif
+
 IncSolver::IncSolver(Variables const &vs, Constraints const &cs) 
     : Solver(vs,cs)
 {
@@ -181,6 +185,9 @@ void Solver::refine() {
 #endif
                 // Split on c
                 Block *l=nullptr, *r=nullptr;
+#ifdef ADAPTAGRAMS_VERIF
+                verifCounters.refineSplits++;
+#endif
                 bs->split(b,l,r,c);
                 bs->cleanup();
                 // split alters the block set so we have to restart
@@ -189,6 +196,9 @@ void Solver::refine() {
             }
         }
     }
+#ifdef ADAPTAGRAMS_VERIF
+    if (!solved) verifCounters.refineExhausted++;
+#endif
     for(unsigned i=0;i<m;i++) {
         if(cs[i]->slack() < ZERO_UPPERBOUND) {
             COLA_ASSERT(cs[i]->slack()>ZERO_UPPERBOUND);
@@ -255,11 +265,17 @@ bool IncSolver::satisfy() {
         COLA_ASSERT(!v->active);
         Block *lb = v->left->block, *rb = v->right->block;
         if(lb != rb) {
+#ifdef ADAPTAGRAMS_VERIF
+            verifCounters.incMerges++;
+#endif
             lb->merge(rb,v);
         } else {
             if(lb->isActiveDirectedPathBetween(v->right,v->left)) {
                 // cycle found, relax the violated, cyclic constraint
                 v->unsatisfiable=true;
+#ifdef ADAPTAGRAMS_VERIF
+                verifCounters.unsatMarks++;
+#endif
                 continue;
                 //UnsatisfiableException e;
                 //lb->getActiveDirectedPathBetween(e.path,v->right,v->left);
@@ -278,6 +294,9 @@ bool IncSolver::satisfy() {
                     inactive.push_back(splitConstraint);
                 } else {
                     v->unsatisfiable=true;
+#ifdef ADAPTAGRAMS_VERIF
+                    verifCounters.unsatMarks++;
+#endif
                     continue;
                 }
             } catch(UnsatisfiableException e) {
@@ -291,6 +310,9 @@ bool IncSolver::satisfy() {
                 }
 #endif
                 v->unsatisfiable=true;
+#ifdef ADAPTAGRAMS_VERIF
+                verifCounters.unsatMarks++;
+#endif
                 continue;
             }
             if(v->slack()>=0) {
@@ -367,6 +389,9 @@ void IncSolver::splitBlocks() {
             f<<"    found split point: "<<*v<<" lm="<<v->lm<<endl;
 #endif
             splitCnt++;
+#ifdef ADAPTAGRAMS_VERIF
+            verifCounters.incSplits++;
+#endif
             Block *b = v->left->block, *l=nullptr, *r=nullptr;
             COLA_ASSERT(v->left->block == v->right->block);
             //double pos = b->posn;
